@@ -6,6 +6,12 @@ verifying FRI parameters that are not the symmetric test defaults — asymmetric
 counts, a second parameter set for the hiding PCS too — with a lazy prover that grinds fewer (or more) bits
 than demanded, for every PCS flavour; see `rule` in the coverage and design_notes/C01.md)
 
+(also: the (PCS flavour x AIR feature) matrix — every feature a verifier treats specially (periodic columns of mixed
+periods incl. 1 and the trace length, preprocessed columns, public values, several quotient chunks, lookups, instance
+heights) under each of uni / unizk / batch / batchzk — and the wrong-AIR move: honest proofs of sibling AIRs of the
+same proof shape must be rejected by both verifiers, the equivalent sibling accepted by both; `feature_matrix` and
+`wrong_air_verdicts` in the coverage)
+
 Plug-in for bin/check (see bin/checks.py). One harness run (`p3r-harness starkfaults`):
 real uni-STARK / batch-STARK proofs (BabyBear and KoalaBear; preprocessed columns, lookups, ZK,
 two FRI parameter sets), the real native verifier and the real verification circuit on the honest
@@ -23,6 +29,15 @@ PROPERTY = "C01"
 CORRESPONDENCE = ("verifier scripts (p3_uni_stark::verify_with_preprocessed, p3_batch_stark::verify_batch + BatchTranscript, "
                   "TwoAdicFriPcs/HidingFriPcs::verify, p3_fri verify_fri; recursion/src/verifier/{stark,batch_stark}.rs, "
                   "types/challenges.rs, pcs/fri/targets.rs) vs lean/P3R/Model/VerifierScript.lean")
+
+
+FLAVOURS = ("uni", "unizk", "batch", "batchzk")
+# AIR features the verifiers treat specially; each must occur under each PCS flavour (see harness/src/c01.rs `features_of`)
+FEATURES_EVERY_FLAVOUR = ("pv", "pre-next", "chunks2+", "chunks4+", "periodic", "periodic-multi", "periodic-mixed",
+                          "periodic-p1", "periodic-p2+", "periodic-pn", "periodic+pre-next")
+FEATURES_BATCH = ("lookups", "multi-height", "periodic+lookups")
+# sibling kinds of the wrong-AIR move (`FeatAir::feat_siblings`); `ptab-dbl` is the equivalent AIR (must stay accepted)
+WRONG_AIR_GROUPS = ("ptab-bump", "ptab-rot", "ptab-half", "ptab-dbl", "ptab-swap", "pre-content", "constraint-k")
 
 
 def _read(p):
@@ -61,6 +76,17 @@ def run(ctx):
                            "what": f"{v['kind']}: native={v['detail'].get('native')} circuit={v['detail'].get('circuit')} "
                                    f"{v['detail'].get('circuit_detail', '')[:120]} at {json.dumps(v['replay'])[:160]}",
                            "replay": v["replay"]})
+    # bin/check prints the first five: soundness disagreements (native rejects, circuit accepts) first, then honest proofs
+    # rejected by the circuit, then the rest; within each group one violation per class before the repeats
+    seen_cls = {}
+    for v in violations:
+        v["_rep"] = seen_cls.get(v["class"], 0)
+        seen_cls[v["class"]] = v["_rep"] + 1
+    violations.sort(key=lambda v: (v["_rep"] > 0,
+                                   0 if v["class"].startswith("native-rejects-circuit-accepts") else
+                                   1 if ":honest/" in v["class"] else 2))
+    for v in violations:
+        v.pop("_rep", None)
     # model side
     driver = os.path.join(ctx["driver_dir"], "p3r_driver_c01")
     with open(f"{out}/c01.cases") as fin:
@@ -112,6 +138,50 @@ def run(ctx):
                 violations.append({"class": f"forge-campaign-lost-power:asymmetric-pow-target:{fam}",
                                    "what": f"no accepted honest proof under asymmetric grinding bit counts for {fam}",
                                    "replay": {"cmd": cmd}, "no_input": True})
+    # (PCS flavour x AIR feature) matrix: every feature a verifier treats specially must occur under every flavour in a
+    # target whose honest proof the native verifier accepts (the circuit's verdict on it is the oracle, not a condition)
+    feature_matrix, feature_circuit_rejects = {}, {}
+    for t in rep["targets"]:
+        fam = t["target"].split("/")[0]
+        feats = list(t.get("features") or [])
+        if "periodic" in feats and "lookups" in feats:
+            feats.append("periodic+lookups")
+        if "periodic" in feats and "pre-next" in feats:
+            feats.append("periodic+pre-next")
+        if t.get("native") != "accept":
+            continue
+        for f in feats:
+            feature_matrix.setdefault(fam, {}).setdefault(f, []).append(t["target"])
+            if t.get("circuit") != "accept":
+                feature_circuit_rejects.setdefault(fam, {}).setdefault(f, []).append(t["target"])
+    wrong_air = {k[len("wrong-air:"):]: v for k, v in hist.items() if k.startswith("wrong-air:")}
+    if generate:
+        for fam in FLAVOURS:
+            need = list(FEATURES_EVERY_FLAVOUR) + (list(FEATURES_BATCH) if fam.startswith("batch") else [])
+            if not fam.endswith("zk"):
+                need.append("pre-cur")      # F-C01-2 / F-C01-3: exercised (and rejected by the circuit) without ZK
+            for f in need:
+                if not feature_matrix.get(fam, {}).get(f):
+                    violations.append({"class": f"forge-campaign-lost-power:feature-matrix:{fam}:{f}",
+                                       "what": f"no target of PCS flavour {fam} has AIR feature {f} (with an honest proof the native "
+                                               f"verifier accepts): that (flavour, feature) pair is no longer exercised",
+                                       "replay": {"cmd": cmd}, "no_input": True})
+            # the wrong-AIR moves: every sibling kind must have been judged under every flavour, the false ones must be
+            # false (natively rejected), the equivalent one equivalent (natively accepted)
+            for group in WRONG_AIR_GROUPS:
+                seen = {k: v for k, v in wrong_air.items() if k.startswith(f"{fam}:{group}")}
+                if not seen:
+                    violations.append({"class": f"forge-campaign-lost-power:wrong-air:{fam}:{group}",
+                                       "what": f"no wrong-AIR proof of sibling kind {group} was judged for PCS flavour {fam}",
+                                       "replay": {"cmd": cmd}, "no_input": True})
+                bad = [k for k in seen if k.endswith(":both-reject" if group == "ptab-dbl" else ":both-accept")]
+                if bad:
+                    violations.append({"class": f"forge-campaign-lost-power:wrong-air-sibling-misdesigned:{fam}:{group}",
+                                       "what": f"sibling kind {group} is meant to be " +
+                                               ("an equivalent AIR but its honest proofs are rejected by both verifiers"
+                                                if group == "ptab-dbl" else
+                                                "a different AIR but its honest proofs are accepted by both verifiers") + f": {bad}",
+                                       "replay": {"cmd": cmd}, "no_input": True})
     cov = {"evaluations": rep["evaluations"], "distinct_nontrivial": rep["distinct"],
            "rule": "one evaluation = one (proof, public values, verifying data) triple judged by the real native verifier and by "
                    "the real verification circuit (build + pack_values + runner); distinct = distinct altered positions "
@@ -136,7 +206,28 @@ def run(ctx):
                    "on every target whose config is built by the harness the same adversarial prover proves the TRUE "
                    "statement but grinds other bit counts than the verifying parameters demand (forgery id grind:c:q — "
                    "one bit short, one bit only, none, per phase and for both phases, and more than demanded): the proof "
-                   "is well formed except that a proof-of-work witness does not satisfy the demanded number of bits",
+                   "is well formed except that a proof-of-work witness does not satisfy the demanded number of bits. "
+                   "Plus the (PCS flavour x AIR feature) matrix (feature_matrix): a switchable feature AIR (FeatAir: up to four "
+                   "periodic columns of mixed periods incl. 1 and the trace length, low-degree and random tables; preprocessed "
+                   "columns read on both rows; public values; constraint degree 2..5 = 1..4 quotient chunks; inside batches also "
+                   "a LogUp bus and instances of different heights) under uni / unizk / batch / batchzk, and on it the wrong-AIR "
+                   "move (forgery id wrongair:i:k:label): an HONEST proof of a sibling AIR of the same proof shape (one periodic "
+                   "table entry off by one, table rotated, table of half the period made of the even entries — one column or all "
+                   "—, two tables exchanged, one preprocessed cell off by one, another constraint constant; and as the positive "
+                   "control the same column written with twice the period) presented for the target's AIR and verifying data: "
+                   "every transcript- / Merkle-bound value is consistent, only what the verifier recomputes from the AIR itself "
+                   "(periodic columns at zeta over the right domain, folded constraints, preprocessed commitment) can reject; "
+                   "these moves are also run when the circuit rejects the target's honest proof (a circuit that rejects the "
+                   "proofs of its AIR may accept those of a sibling)",
+           "feature_matrix": {fam: {f: sorted(set(ts)) for f, ts in sorted(d.items())} for fam, d in sorted(feature_matrix.items())},
+           "feature_matrix_rule": "feature_matrix[flavour][feature] = targets of that PCS flavour whose AIR(s) have the feature and whose "
+                                  "honest proof the native verifier accepts; each carries: honest proof judged by both verifiers, every "
+                                  "numeric leaf altered, false-statement forgeries, and (FeatAir targets) the wrong-AIR moves; pre-cur "
+                                  "(preprocessed columns read on the current row only) is rejected by the circuit on every flavour "
+                                  "(known findings F-C01-2 / F-C01-3), hence only kept for the non-ZK flavours",
+           "feature_matrix_honest_proof_rejected_by_circuit": feature_circuit_rejects,
+           "wrong_air_verdicts": wrong_air,
+           "wrong_air_proofs": sum(t.get("wrong_air_proofs") or 0 for t in rep["targets"]),
            "pow_under_ground_native_rejections": {k[len("forge-pow-native-reject:"):]: v for k, v in hist.items()
                                                   if k.startswith("forge-pow-native-reject:")},
            "forged_native_verdicts": forged_native,
@@ -153,7 +244,7 @@ def run(ctx):
 
 
 CHECK = {
-    "lean_modules": ["P3R.Props.C01", "P3R.Witness.C01"],
+    "lean_modules": ["P3R.Props.C01", "P3R.Witness.C01", "P3R.Props.C01Periodic", "P3R.Witness.C01Periodic"],
     "lean_exes": ["p3r_driver_c01"],
     "theorems": [
         "P3R.C01.batch_scripts_equal_partial", "P3R.C01.uni_scripts_equal_partial", "P3R.C01.uniAsBatch_rounds",
@@ -165,6 +256,8 @@ CHECK = {
         "P3R.C01.native_fri_pow", "P3R.C01.get_challenges_pow", "P3R.C01.circuit_batch_pow", "P3R.C01.circuit_uni_pow",
         "P3R.C01.failing_pow_rejected", "P3R.C01.under_ground_query_rejected", "P3R.C01.under_ground_commit_rejected",
         "P3R.C01.uni_under_ground_query_rejected", "P3R.C01.uni_under_ground_commit_rejected",
+        "P3R.C01.periodic_domain_fold", "P3R.C01.periodic_low_degree_pad", "P3R.C01.wrong_domain_is_half_sibling",
+        "P3R.Witness.C01Periodic.domain_matters", "P3R.Witness.C01Periodic.half_sibling_inhabited",
         "P3R.Witness.C01.zk_asym_pow_events",
         "P3R.Witness.C01.bus_mixed_terminal_sum",
         "P3R.Witness.C01.uni_zk_scripts_equal", "P3R.Witness.C01.uni_nonext_scripts_equal",
@@ -184,6 +277,9 @@ CHECK = {
         "under-ground proofs are made by giving the prover a config with other grinding bit counts than the verifier's "
         "(thread-local override read by the harness's own config makers; a target whose config ignores it yields no "
         "grind forgery, and the override is never alive while a verifier or a circuit is built)",
+        "the wrong-AIR move proves a sibling AIR honestly with the same prover copy; that a sibling is a *different* AIR "
+        "(resp. the `ptab-dbl` sibling an equivalent one) is not assumed: the native verifier's verdict on it is checked each "
+        "run (class forge-campaign-lost-power:wrong-air-sibling-misdesigned)",
         "the adversarial prover harness/src/c01_forge_prover.rs (copy of p3_batch_stark::prove_batch / "
         "p3_uni_stark::prove_with_preprocessed 0.6.3 without the debug-only self-checks, plus hooks): it only has to "
         "produce proofs; that it has not drifted from the stock provers is checked on every run (byte-identical proof on "
@@ -218,6 +314,9 @@ MANIFEST_ENTRY = {
                  "verdict vs circuit outcome) "
                  "+ asymmetric / non-default verifying FRI parameters for every PCS flavour with a lazy prover grinding fewer "
                  "(or more) proof-of-work bits than demanded "
+                 "+ a (PCS flavour x AIR feature) target matrix (periodic columns of mixed periods, preprocessed columns, public "
+                 "values, 1..4 quotient chunks, lookups, heights; uni / unizk / batch / batchzk) with the wrong-AIR move (honest "
+                 "proofs of sibling AIRs of the same shape: other periodic table / preprocessed content / constraint) "
                  "+ differential correspondence of the model with the recorded native transcript and with the checks / "
                  "proof-of-work phases seen decisive on forged proofs",
     "level_claimed": {
@@ -232,7 +331,7 @@ MANIFEST_ENTRY = {
     },
     "level_note": "Lean kernel + 3 standard axioms; composition level only (components are other properties); the model's "
                   "circuit side is tied to the code indirectly (see trusted base); fault enumeration covers every numeric "
-                  "leaf of 58 real proofs (64 targets; single-element alterations) and ~2200 forged proofs (false statements: "
+                  "leaf of 78 real proofs (84 targets; single-element alterations) and ~3700 forged proofs (300 of them honest proofs of sibling AIRs; false statements: "
                   "trace / public value / terminal / auxiliary trace / quotient; true statements with under- / over-ground "
                   "proof-of-work witnesses) on the accepted targets; tiny FRI parameters (grinding bit counts 0..9); FRI-internal forgeries (inconsistent folding) are not produced (C07)",
 }
